@@ -1407,7 +1407,14 @@ func (f *Frame) atCall(st *execState, call *ssa.Call) {
 		}
 	}
 	for _, ac := range f.con.Ats {
-		if ac.Callee != name || ac.Nth != f.callOrd[call] {
+		if ac.Callee != name {
+			continue
+		}
+		if ac.Loop > 0 {
+			if ac.Loop > len(f.loops) || !f.loops[ac.Loop-1].body[call.Block()] {
+				continue
+			}
+		} else if ac.Nth != f.callOrd[call] {
 			continue
 		}
 		sc := f.scopeAt(st, nil)
